@@ -2,4 +2,42 @@ import Rscp.Model.Log
 namespace Rscp.Model
 /-- tag number by name, from the regenerated table -/
 def tagNamedL (n : String) : Nat := (lookupStr n Gen.tagNameToValue).getD 0
+
+mutual
+/-- the text of a message is the text of the message with every secret value removed -/
+theorem render_maskSecrets (tagS dtS : Nat → String) (leaf : Val → String) :
+    ∀ m : Msg, render tagS dtS leaf m = render tagS dtS leaf (maskSecrets m)
+  | .mk t d v => by
+    by_cases hs : isSecret t = true
+    · simp only [maskSecrets, hs, if_true, render]
+    · have ih := renderVal_maskVal tagS dtS leaf v
+      simp only [maskSecrets, hs, if_false, render, Bool.false_eq_true]
+      rw [ih]
+theorem renderVal_maskVal (tagS dtS : Nat → String) (leaf : Val → String) :
+    ∀ v : Val, renderVal tagS dtS leaf v = renderVal tagS dtS leaf (maskVal v)
+  | .msgs ms => by
+    have ih := renderList_maskList tagS dtS leaf ms
+    simp only [maskVal, renderVal]
+    rw [ih]
+  | .nil => by simp only [maskVal]
+  | .bool _ => by simp only [maskVal]
+  | .num _ _ => by simp only [maskVal]
+  | .str _ => by simp only [maskVal]
+  | .bytes _ => by simp only [maskVal]
+  | .time _ _ => by simp only [maskVal]
+  | .other _ => by simp only [maskVal]
+theorem renderList_maskList (tagS dtS : Nat → String) (leaf : Val → String) :
+    ∀ ms : List Msg, renderList tagS dtS leaf ms = renderList tagS dtS leaf (maskList ms)
+  | [] => by simp only [maskList]
+  | [m] => by
+    have ih := render_maskSecrets tagS dtS leaf m
+    simp only [maskList, renderList]
+    exact ih
+  | m :: m' :: ms => by
+    have ih1 := render_maskSecrets tagS dtS leaf m
+    have ih2 := renderList_maskList tagS dtS leaf (m' :: ms)
+    simp only [maskList, renderList] at ih2 ⊢
+    rw [← ih1, ← ih2]
+end
+
 end Rscp.Model
